@@ -9,7 +9,9 @@ from batches import core, wcore
 TRUSTED = list(wcore.TRUSTED)
 OWN = ['C13']
 VERUS_ARGS = ['--rlimit', '60']
-MULTIPLE_ERRORS = 8
+MULTIPLE_ERRORS = 5
+# generate_row's body is only extracted on request (its verification condition exceeds the resource limit, see header)
+GENERATE_ROW = os.environ.get('WLINE_GENERATE_ROW') == '1'
 
 
 def anchor(it, pat, fn=None):
@@ -280,6 +282,85 @@ proof fn lemma_head(h: LineHdr, v: u16, prev_r: LineRow, row: LineRow, s0: Seq<L
     if row.isa != prev_r.isa { lemma_trk_sets(h, v, prev, lim, s0, a7, w7, LineInstruction::SetIsa(row.isa), w8); }
     assert(w8 == (WRow { address_offset: prev.address_offset, op_index: prev.op_index, line: prev.line, ..tgt }));
 }
+
+/// decision record of the second half of generate_row: which instructions were appended after the head
+spec fn wl_tail(s8: Seq<LineInstruction>, al: Option<i64>, cap: bool, apc: Option<u64>, fin: Option<u8>) -> Seq<LineInstruction> {
+    let s9 = match al { Some(x) => s8.push(LineInstruction::AdvanceLine(x)), None => s8 };
+    let s10 = if cap { s9.push(LineInstruction::ConstAddPc) } else { s9 };
+    let s11 = match apc { Some(u) => s10.push(LineInstruction::AdvancePc(u)), None => s10 };
+    match fin { Some(o) => s11.push(LineInstruction::Special(o)), None => s11.push(LineInstruction::Copy) }
+}
+/// the second half only appends
+proof fn lemma_tail_frame(v: u16, s0: Seq<LineInstruction>, s8: Seq<LineInstruction>, al: Option<i64>, cap: bool, apc: Option<u64>, fin: Option<u8>)
+    requires s0.len() <= s8.len(), s8.take(s0.len() as int) =~= s0
+    ensures ({
+        let sf = wl_tail(s8, al, cap, apc, fin);
+        wl_ops(v, sf).take(s0.len() as int) == wl_ops(v, s0) && wl_ops(v, sf).len() > s0.len()
+    })
+{
+    let sf = wl_tail(s8, al, cap, apc, fin);
+    assert(sf.len() > s8.len());
+    assert(sf.take(s0.len() as int) =~= s0);
+    assert(wl_ops(v, sf).take(s0.len() as int) =~= wl_ops(v, s0));
+}
+/// ANY choice of (advance_line?, const_add_pc?, advance_pc?, special | copy) that accounts for the whole line delta and the
+/// whole operation advance in the way 6.2.5.1/6.2.5.2 define these opcodes generates exactly the requested row
+proof fn lemma_tail(h: LineHdr, v: u16, prev: WRow, tgt: WRow, s0: Seq<LineInstruction>, s8: Seq<LineInstruction>,
+                    al: Option<i64>, cap: bool, apc: Option<u64>, fin: Option<u8>)
+    requires
+        wl_hdr_ok(h), wl_row_wf(h, prev), wl_row_wf(h, tgt), wl_ordered(prev, tgt),
+        wl_trk(h, v, prev, tgt.address_offset, s0, s8, WRow { address_offset: prev.address_offset, op_index: prev.op_index, line: prev.line, ..tgt }),
+        wl_line_delta_fits(prev.line, tgt.line),
+        al matches Some(x) ==> x as int == tgt.line - prev.line,
+        cap ==> apc is None && wl_op_advance(h, prev, tgt) >= wl_const_add_pc_advance(h),
+        apc matches Some(u) ==> u as int == wl_op_advance(h, prev, tgt),
+        ({
+            let adv = wl_op_advance(h, prev, tgt);
+            let k = if apc is Some { 0 } else if cap { adv - wl_const_add_pc_advance(h) } else { adv };
+            let dl = if al is Some { 0 } else { tgt.line - prev.line };
+            match fin {
+                Some(o) => 0 <= dl - h.line_base < h.line_range && o as int == h.opcode_base + (dl - h.line_base) + k * h.line_range,
+                None => dl == 0 && k == 0,
+            }
+        }),
+    ensures
+        forall|base: int| wl_generates(h, base, prev, tgt, wl_pushed(v, s0, wl_tail(s8, al, cap, apc, fin))),
+        line_ops_wf(h, wl_pushed(v, s0, wl_tail(s8, al, cap, apc, fin))),
+{
+    let lim = tgt.address_offset;
+    let adv = wl_op_advance(h, prev, tgt);
+    let w8 = WRow { address_offset: prev.address_offset, op_index: prev.op_index, line: prev.line, ..tgt };
+    lemma_wl_op_advance_cong(h, prev, tgt, w8, tgt);
+    lemma_wl_line_add(prev.line, tgt.line);
+    lemma_wl_line_add_zero(tgt.line);
+    lemma_wl_line_add_zero(prev.line);
+    // DW_LNS_advance_line
+    let s9 = match al { Some(x) => s8.push(LineInstruction::AdvanceLine(x)), None => s8 };
+    let w9 = if al is Some { WRow { line: tgt.line, ..w8 } } else { w8 };
+    match al { Some(x) => { lemma_trk_sets(h, v, prev, lim, s0, s8, w8, LineInstruction::AdvanceLine(x), w9); }, None => {} }
+    assert(wl_trk(h, v, prev, lim, s0, s9, w9));
+    lemma_wl_op_advance_cong(h, prev, tgt, w9, tgt);
+    // DW_LNS_const_add_pc
+    let s10 = if cap { s9.push(LineInstruction::ConstAddPc) } else { s9 };
+    let w10 = if cap { wl_mid(h, w9) } else { w9 };
+    if cap { lemma_trk_const_add_pc(h, v, prev, s0, s9, w9, tgt); }
+    assert(wl_trk(h, v, prev, lim, s0, s10, w10));
+    // DW_LNS_advance_pc
+    let s11 = match apc { Some(u) => s10.push(LineInstruction::AdvancePc(u)), None => s10 };
+    let w11 = if apc is Some { WRow { address_offset: tgt.address_offset, op_index: tgt.op_index, ..w10 } } else { w10 };
+    match apc { Some(u) => { lemma_trk_advance_pc(h, v, prev, s0, s10, w10, tgt, u); }, None => {} }
+    assert(wl_trk(h, v, prev, lim, s0, s11, w11));
+    let k = if apc is Some { 0 } else if cap { adv - wl_const_add_pc_advance(h) } else { adv };
+    let dl = if al is Some { 0 } else { tgt.line - prev.line };
+    assert(k == wl_op_advance(h, w11, tgt));
+    assert(wl_row_wf(h, w11) && wl_ordered(w11, tgt) && wl_rest_done(w11, tgt));
+    assert(wl_line_add(w11.line, dl) == tgt.line);
+    // the row
+    match fin {
+        Some(o) => { lemma_trk_special(h, v, prev, s0, s11, w11, tgt, o, dl - h.line_base, k); },
+        None => { lemma_trk_copy(h, v, prev, s0, s11, w11, tgt); },
+    }
+}
 '''
 
 ID_GHOST = '''
@@ -384,8 +465,11 @@ pub use self::id::*;''')
     lp.clean()
     sk.add(M, lp)
     im = wl.item(r'^impl LineProgram \{', label='LineProgram(impl)')
-    im.keep_only(['is_none', 'encoding', 'version', 'address_size', 'format', 'begin_sequence', 'set_address', 'end_sequence',
-                  'in_sequence', 'row', 'generate_row', 'op_advance', 'is_empty'])
+    keep = ['is_none', 'encoding', 'version', 'address_size', 'format', 'begin_sequence', 'set_address', 'end_sequence',
+            'in_sequence', 'row', 'op_advance', 'is_empty']
+    if GENERATE_ROW:
+        keep.append('generate_row')
+    im.keep_only(keep)
     im.clean()
     im.insert_members(LP_GHOST)
     im.own(OWN)
@@ -506,58 +590,48 @@ def program_contracts(im, findings):
          'lemma_trk_end(h, v, prev, s0, sn2, wc, LineInstruction::EndSequence, lim, opi); }'),
     ], canary=True)
 
-    # ---- generate_row
-    ops = []   # (before, after) pairs
-    W = ['prev'] + [f'w{k}' for k in range(1, 9)]
-    simple = [
-        (r'self\.instructions\s*\.push\(LineInstruction::SetDiscriminator\(self\.row\.discriminator\)\);', 'LineInstruction::SetDiscriminator(self.row.discriminator)'),
-        (r'self\.instructions\.push\(LineInstruction::SetBasicBlock\);', 'LineInstruction::SetBasicBlock'),
-        (r'self\.instructions\.push\(LineInstruction::SetPrologueEnd\);', 'LineInstruction::SetPrologueEnd'),
-        (r'self\.instructions\.push\(LineInstruction::SetEpilogueBegin\);', 'LineInstruction::SetEpilogueBegin'),
-        (r'self\.instructions\.push\(LineInstruction::NegateStatement\);', 'LineInstruction::NegateStatement'),
-        (r'self\.instructions\s*\.push\(LineInstruction::SetFile\(self\.row\.file\)\);', 'LineInstruction::SetFile(self.row.file)'),
-        (r'self\.instructions\s*\.push\(LineInstruction::SetColumn\(self\.row\.column\)\);', 'LineInstruction::SetColumn(self.row.column)'),
-        (r'self\.instructions\s*\.push\(LineInstruction::SetIsa\(self\.row\.isa\)\);', 'LineInstruction::SetIsa(self.row.isa)'),
-    ]
-    # DW_LNS_advance_line
-    ops.append(push_site(im, r'self\.instructions\s*\.push\(LineInstruction::AdvanceLine\(line_advance\)\);', 9, 'w8', 'w9', 'LineInstruction::AdvanceLine(line_advance)'))
-    # DW_LNS_const_add_pc
-    ops.append(lemma_site(im, r'self\.instructions\.push\(LineInstruction::ConstAddPc\);', 10,
-                          'lemma_trk_const_add_pc(h, v, prev, s0, sn10, wc, tgt);', 'wc = wl_mid(h, wc);'))
-    # DW_LNS_advance_pc
-    W10 = '(WRow { address_offset: tgt.address_offset, op_index: tgt.op_index, ..wc })'
-    ops.append(lemma_site(im, r'self\.instructions\s*\.push\(LineInstruction::AdvancePc\(op_advance\)\);', 11,
-                          'lemma_trk_advance_pc(h, v, prev, s0, sn11, wc, tgt, op_advance);', f'wc = {W10}; kk = 0;'))
-    # the row: a special opcode ...
-    ops.append(lemma_site(im, r'self\.instructions\s*\.push\(LineInstruction::Special\(special as u8\)\);', 12,
-                          'if fits { lemma_trk_special(h, v, prev, s0, sn12, wc, tgt, special as u8, sl, kk); } '
-                          'else { reveal(wl_trk); lemma_trk_shape(v, s0, sn12, LineInstruction::Special(special as u8)); }'))
-    # ... or DW_LNS_copy
-    ops.append(lemma_site(im, r'self\.instructions\.push\(LineInstruction::Copy\);', 13,
-                          'if fits { if use_special { lemma_wl_default_special(h, sl, kk); lemma_wl_line_add_zero(wc.line); } lemma_trk_copy(h, v, prev, s0, sn13, wc, tgt); } '
-                          'else { reveal(wl_trk); lemma_trk_shape(v, s0, sn13, LineInstruction::Copy); }'))
-
-    # join points: after each conditional push the bookkeeping and the exec state are restated for the merged state
-    # (closed forms: nothing depends on which branch was taken; this keeps the 2^13 paths apart)
+    if not GENERATE_ROW:
+        return
+    # ---- generate_row.  The semantic argument is in the pure lemmas lemma_head / lemma_tail (cheap); the body only records
+    # WHICH instructions were appended (closed forms a1..a8, decision record g_al/g_cap/g_apc/g_fin) and the integer facts
+    # about the chosen opcode.  Every join of a conditional push restates the state in closed form (nothing depends on the
+    # branch taken): without this the 2^13 paths of the body make the verification condition intractable.
+    def pa(pat):
+        return anchor(im, pat, 'generate_row')
+    A_AL = pa(r'self\.instructions\s*\.push\(LineInstruction::AdvanceLine\(line_advance\)\);')
+    A_CAP = pa(r'self\.instructions\.push\(LineInstruction::ConstAddPc\);')
+    A_APC = pa(r'self\.instructions\s*\.push\(LineInstruction::AdvancePc\(op_advance\)\);')
+    A_SPE = pa(r'self\.instructions\s*\.push\(LineInstruction::Special\(special as u8\)\);')
+    STATE = 'assert(self.prev_row == prow0 && self.same_config(&self0) && self.in_sequence); '
     RESET = ['discriminator: 0', 'basic_block: false', 'prologue_end: false', 'epilogue_begin: false']
 
     def join(k):
         row = 'LineRow { ' + ', '.join(RESET[:min(k, 4)]) + ', ..row0 }'
-        return ('proof { assert(self.row == ' + row + '); assert(self.prev_row == prow0 && self.same_config(&self0) && self.in_sequence); '
-                'assert(' + TRK.format(w=f'w{k}') + '); }')
+        return f'proof {{ assert(self.instructions@ == a{k}); assert(self.row == {row}); {STATE} }}'
     JOINS = [(nxt, join(k)) for k, nxt in enumerate([
         'if self.row.basic_block {', 'if self.row.prologue_end {', 'if self.row.epilogue_begin {',
         'if self.row.is_statement != self.prev_row.is_statement {', 'if self.row.file != self.prev_row.file {',
         'if self.row.column != self.prev_row.column {', 'if self.row.isa != self.prev_row.isa {'], start=1)]
-    TOP = ('let ghost h = self.lh(); let ghost v = self.encoding.version; let ghost s0 = self.instructions@; '
+    LI = 'LineInstruction::'
+    TOP = ('let ghost h = self.lh(); let ghost v = self.encoding.version; let ghost s0 = self.instructions@; let ghost self0 = *self; '
+           'let ghost row0 = self.row; let ghost prow0 = self.prev_row; '
            'let ghost rowR = LineRow { discriminator: 0, basic_block: false, prologue_end: false, epilogue_begin: false, ..self.row }; '
-           'let ghost row0 = self.row; let ghost prow0 = self.prev_row; let ghost self0 = *self; '
-           'let ghost prev = self.prev(); let ghost tgt = self.cur(); let ghost lim = tgt.address_offset; '
-           'let ghost fits = wl_line_delta_fits(prev.line, tgt.line); '
+           'let ghost prev = self.prev(); let ghost tgt = self.cur(); let ghost fits = wl_line_delta_fits(prev.line, tgt.line); '
            'let ghost w8 = WRow { address_offset: prev.address_offset, op_index: prev.op_index, line: prev.line, ..tgt }; '
-           'let ghost mut wc = w8; let ghost mut kk: int = 0; let ghost mut sl: int = 0; '
-           'let ghost lb64: i64 = self.line_encoding.line_base as i64; let ghost la64: u64 = self.row.line; let ghost lp64: u64 = self.prev_row.line; '
-           'proof { }')
+           f'let ghost a1 = if row0.discriminator != 0 {{ s0.push({LI}SetDiscriminator(row0.discriminator)) }} else {{ s0 }}; '
+           f'let ghost a2 = if row0.basic_block {{ a1.push({LI}SetBasicBlock) }} else {{ a1 }}; '
+           f'let ghost a3 = if row0.prologue_end {{ a2.push({LI}SetPrologueEnd) }} else {{ a2 }}; '
+           f'let ghost a4 = if row0.epilogue_begin {{ a3.push({LI}SetEpilogueBegin) }} else {{ a3 }}; '
+           f'let ghost a5 = if row0.is_statement != prow0.is_statement {{ a4.push({LI}NegateStatement) }} else {{ a4 }}; '
+           f'let ghost a6 = if row0.file != prow0.file {{ a5.push({LI}SetFile(row0.file)) }} else {{ a5 }}; '
+           f'let ghost a7 = if row0.column != prow0.column {{ a6.push({LI}SetColumn(row0.column)) }} else {{ a6 }}; '
+           f'let ghost a8 = if row0.isa != prow0.isa {{ a7.push({LI}SetIsa(row0.isa)) }} else {{ a7 }}; '
+           'let ghost mut g_al: Option<i64> = None; let ghost mut g_cap: bool = false; let ghost mut g_apc: Option<u64> = None; let ghost mut g_fin: Option<u8> = None; '
+           'let ghost mut kk: int = 0; let ghost mut sl: int = 0; '
+           'let ghost lb64: i64 = self.line_encoding.line_base as i64; let ghost la64: u64 = self.row.line; let ghost lp64: u64 = self.prev_row.line;')
+    S9 = f'(match g_al {{ Some(x) => a8.push({LI}AdvanceLine(x)), None => a8 }})'
+    S10 = f'(if g_cap {{ {S9}.push({LI}ConstAddPc) }} else {{ {S9} }})'
+    S11 = f'(match g_apc {{ Some(u) => {S10}.push({LI}AdvancePc(u)), None => {S10} }})'
     CASTS = ('proof { '
              f'assert(lb64 < 0 ==> (lb64 as u64) as int == lb64 as int + {POW64}) by (bit_vector); '
              'assert(lb64 >= 0 ==> (lb64 as u64) as int == lb64 as int) by (bit_vector); '
@@ -565,26 +639,24 @@ def program_contracts(im, findings):
              f'assert(la64 > 0x7fff_ffff_ffff_ffffu64 ==> (la64 as i64) as int == la64 as int - {POW64}) by (bit_vector); '
              'assert(lp64 <= 0x7fff_ffff_ffff_ffffu64 ==> (lp64 as i64) as int == lp64 as int) by (bit_vector); '
              f'assert(lp64 > 0x7fff_ffff_ffff_ffffu64 ==> (lp64 as i64) as int == lp64 as int - {POW64}) by (bit_vector); '
-             'assert(self.row == rowR); assert(self.prev_row == prow0 && self.same_config(&self0) && self.in_sequence); '
-             'assert(self.instructions@ == wl_head(prow0, row0, s0)); lemma_head(h, v, prow0, row0, s0); '
-             'assert(' + TRK.format(w='w8') + '); }')
-    AFTER_DEFAULT = ('let ghost w9 = WRow { line: wl_line_add(prev.line, line_advance as int), ..w8 }; proof { lemma_wl_line_add_range(prev.line, line_advance as int); '
+             f'assert(self.instructions@ == a8); assert(self.row == rowR); {STATE} '
+             'assert(a8 == wl_head(prow0, row0, s0)); }')
+    AFTER_DEFAULT = ('proof { '
                      f'assert(line_base as int == (if h.line_base < 0 {{ h.line_base + {POW64} }} else {{ h.line_base }})); '
                      'assert(special_default as int == 13 - h.line_base); '
                      'assert(fits ==> line_advance as int == tgt.line - prev.line); '
                      f'assert(line_advance < 0 ==> (line_advance as u64) as int == line_advance as int + {POW64}) by (bit_vector); '
                      'assert(line_advance >= 0 ==> (line_advance as u64) as int == line_advance as int) by (bit_vector); '
                      'sl = -h.line_base; }')
-    # after the line part: either the line is done (w9) or it rides on the special opcode (sl = line_advance - line_base)
+    # after the line part: either the line is done (advance_line / no change) or it rides on the special opcode
     AFTER_LINE = ('proof { '
-                  'lemma_wl_op_advance_cong(h, prev, tgt, w9, tgt); '
-                  'if use_special { sl = line_advance as int - h.line_base; wc = w8; } else if line_advance != 0 { wc = w9; } else { wc = w8; } '
+                  'if use_special { sl = line_advance as int - h.line_base; } '
                   'assert(special as int == 13 + sl && 0 <= sl < h.line_range); '
-                  'assert(fits ==> wl_line_add(wc.line, h.line_base + sl) == tgt.line) by { if fits { lemma_wl_line_add(prev.line, tgt.line); lemma_wl_line_add_zero(tgt.line); } } '
-                  'assert(' + TRK.format(w='wc') + '); '
-                  'assert(self.row == rowR && self.prev_row == prow0 && self.same_config(&self0) && self.in_sequence); '
-                  'lemma_wl_advance_lands(h, 0, wc, tgt, wl_regs(0, wc)); kk = op_advance as int; '
-                  'assert(kk == wl_op_advance(h, wc, tgt)); }')
+                  'assert(g_al is Some <==> (line_advance != 0 && !use_special)); assert(g_al matches Some(x) ==> x == line_advance); '
+                  'assert(use_special ==> line_advance != 0); '
+                  f'assert(self.instructions@ == {S9}); assert(self.row == rowR); {STATE} '
+                  'lemma_wl_advance_lands(h, 0, prev, tgt, wl_regs(0, prev)); kk = op_advance as int; '
+                  'assert(kk == wl_op_advance(h, prev, tgt)); }')
     NO_OVERFLOW = ('proof { if op_advance <= 0xff_ffff_ffff_ffffu64 { assert(op_advance as int * line_range as int <= 0xff_ffff_ffff_ffff * 255) by (nonlinear_arith) '
                    'requires 0 <= op_advance as int <= 0xff_ffff_ffff_ffff, 0 <= line_range as int <= 255; } }')
     # `op_advance - op_range` cannot underflow; `special_op_advance * line_range` stays below `op_advance * line_range`
@@ -594,18 +666,24 @@ def program_contracts(im, findings):
                          'requires special_op_advance <= op_advance, line_range >= 0; '
                          'if const_add_pc { kk = kk - wl_const_add_pc_advance(h); } '
                          'assert(special_op_advance as int == kk); }')
+    # the decision record against the standard: (line delta, operation advance) are fully accounted for
     BEFORE_FINAL = ('proof { if kk == 0 { assert(kk * h.line_range == 0) by (nonlinear_arith) requires kk == 0; } '
-                    'assert(use_special ==> special as int == 13 + sl + kk * h.line_range); '
-                    'assert(!use_special ==> special as int == 13 + sl && sl == -h.line_base); '
-                    'assert(kk == wl_op_advance(h, wc, tgt)); assert(wl_rest_done(wc, tgt)); '
-                    'assert(wl_row_wf(h, wc) && wl_ordered(wc, tgt)); '
-                    'assert(' + TRK.format(w='wc') + '); '
-                    'assert(self.row == rowR && self.prev_row == prow0 && self.same_config(&self0) && self.in_sequence); '
-                    'assert(fits ==> wl_line_add(wc.line, h.line_base + sl) == tgt.line); '
-                    'lemma_wl_line_add_zero(wc.line); assert(fits && !use_special ==> wc.line == tgt.line); '
-                    'assert(kk >= 0); assert(!use_special ==> kk == 0); '
-                    'assert(kk * h.line_range >= 0) by (nonlinear_arith) requires kk >= 0, h.line_range >= 0; '
-                    'assert(use_special ==> 13 <= special <= 255); }')
+                    'let adv = wl_op_advance(h, prev, tgt); '
+                    'assert(kk >= 0); assert(kk * h.line_range >= 0) by (nonlinear_arith) requires kk >= 0, h.line_range >= 0; '
+                    'assert(special as int == 13 + sl + kk * h.line_range); '
+                    'assert(!use_special ==> kk == 0 && sl == -h.line_base); '
+                    'assert(use_special ==> special <= 255); '
+                    'assert(g_cap ==> g_apc is None && adv >= wl_const_add_pc_advance(h)); '
+                    'assert(g_apc matches Some(u) ==> u as int == adv); '
+                    'assert(kk == (if g_apc is Some { 0 } else if g_cap { adv - wl_const_add_pc_advance(h) } else { adv })); '
+                    f'assert(self.instructions@ == {S11}); assert(self.row == rowR); {STATE} }}')
+    FINAL_JOIN = ('let ghost sf = self.instructions@; proof { '
+                  f'assert(self.row == rowR); {STATE} '
+                  'assert(sf == wl_tail(a8, g_al, g_cap, g_apc, g_fin)); '
+                  'lemma_head(h, v, prow0, row0, s0); reveal(wl_trk); '
+                  'lemma_tail_frame(v, s0, a8, g_al, g_cap, g_apc, g_fin); '
+                  'if fits { if g_fin is None && use_special { lemma_wl_default_special(h, sl, kk); } '
+                  'lemma_tail(h, v, prev, tgt, s0, a8, g_al, g_cap, g_apc, g_fin); } }')
     FINAL_POST = ('proof { assert(self.lh() == h && self.encoding.version == v); '
                   'assert(self.ops() == wl_ops(v, sf)); '
                   'assert(wl_ops(v, s0).len() == s0.len()); '
@@ -613,11 +691,6 @@ def program_contracts(im, findings):
                   'assert(self.prev() == wl_after(tgt) && self.cur() == wl_after(tgt)); '
                   'assert(wl_prev_wf(h, wl_after(tgt))); '
                   'assert(self.wf()); }')
-    FINAL_JOIN = ('let ghost sf = self.instructions@; proof { '
-                  'assert(self.row == rowR && self.prev_row == prow0 && self.same_config(&self0) && self.in_sequence); '
-                  'assert(wl_ops(v, sf).take(s0.len() as int) == wl_ops(v, s0) && wl_ops(v, sf).len() > s0.len()); '
-                  'assert(fits ==> line_ops_wf(h, wl_pushed(v, s0, sf))); '
-                  'assert(fits ==> forall|base: int| wl_generates(h, base, prev, tgt, wl_pushed(v, s0, sf))); }')
     im.splice('generate_row', requires=[
         f'[C13:pre-header] wl_hdr_ok({H})'] + ([] if findings else [f'[C13:pre-line-range-127] {H}.line_range <= 127']) + [
         f'2 <= {H}.version <= 5', 'old(self).wf()',
@@ -636,16 +709,18 @@ def program_contracts(im, findings):
         # the same for ANY pair of u64 line numbers.  FAILS: a difference outside i64 is computed modulo 2^64 (F-wline-2)
         f'[C13:generate-row-any-line][C12:line-regen] forall|base: int| wl_generates({H}, base, old(self).prev(), old(self).cur(), {PUSHED})',
     ] if findings else []),
-        before=[('self.in_sequence = true;', TOP), ('let line_base = i64::from(', CASTS),
-                ('let op_advance = self.op_advance();', 'proof { lemma_wl_op_advance_cong(h, prev, self.cur(), prev, tgt); }')] + [b for b, _ in ops] + [
+        before=[('self.in_sequence = true;', TOP), ('let line_base = i64::from(', CASTS)] + JOINS + [
+            ('let op_advance = self.op_advance();', 'proof { lemma_wl_op_advance_cong(h, prev, self.cur(), prev, tgt); }'),
             ('if op_advance != 0 {', AFTER_LINE),
             ('let (special_op_advance, const_add_pc) =', NO_OVERFLOW),
             ('let op_range = (255 - special_base) / line_range;', BEFORE_RANGE),
             ('let special_op = special_op_advance * line_range;', BEFORE_SPECIAL_OP),
             ('if use_special && special != special_default {', BEFORE_FINAL),
             ('self.prev_row = self.row;', FINAL_JOIN)],
-        after=[('let op_advance = self.op_advance();', 'proof { lemma_wl_op_advance_cong(h, prev, tgt, w8, tgt); }'),
-               ('let mut use_special = false;', AFTER_DEFAULT)] + [a for _, a in ops] + [('self.prev_row = self.row;', FINAL_POST)],
+        after=[('let mut use_special = false;', AFTER_DEFAULT),
+               (A_AL, 'proof { g_al = Some(line_advance); }'), (A_CAP, 'proof { g_cap = true; }'),
+               (A_APC, 'proof { g_apc = Some(op_advance); kk = 0; }'), (A_SPE, 'proof { g_fin = Some(special as u8); }'),
+               ('self.prev_row = self.row;', FINAL_POST)],
         canary=True)
 
 
